@@ -93,3 +93,83 @@ def check_c19(ctx):
         "generators are called in-process through their library entry points; the CLI wrappers are exercised by C20",
         "a generator that fails (error or panic) on a model contributes no observation here",
     ])
+
+
+def check_c07(ctx):
+    import os
+    import random
+    import re
+    quick = ctx.quick()
+    core.build_vh(ctx, race=True)
+    mc = core.model_check(ctx, "CompileConc", "MCCompileConc.cfg")
+    # non-vacuity of the design check: the variant that never deletes must violate the invariants
+    r = core.tlc(ctx, "CompileConc", "MCCompileConcMutant.cfg", workers=4, expect_fail=True)
+    if not r.violated:
+        raise core.Infra("CompileConc.tla does not distinguish the delete-at-end variant from the never-delete one")
+    scn_src = det_scenarios(ctx, quick)
+    rng = random.Random(ctx.seed)
+    sources = [{"decls": s["decls"], "text": ""} for s in scn_src]
+    files = fam_frontend.corpus_files()
+    for f in rng.sample(files, 20 if quick else 150):
+        try:
+            text = open(os.path.join(core.repo_dir(), f), errors="replace").read()
+        except OSError:
+            continue
+        if "import " in text:
+            continue
+        sources.append({"decls": [], "text": text})
+    # import closures with diamonds and repeated imports (the collector's shared map is exercised concurrently)
+    for k in range(6 if quick else 30):
+        n = 3 + k % 3
+        files = {}
+        for i in range(n):
+            imps = "".join("import f%d\n" % j for j in range(i + 1, n) if (i + j + k) % 2 == 0 or j == n - 1)
+            files["f%d.sysl" % i] = imps + "\nApp%d:\n    Ep:\n        step %d\nShared:\n    Log:\n        visited %d\n" % (i, i, i)
+        main = "import f0\nimport f1\nimport f%d\n\nRoot:\n    Ep:\n        ...\n" % (n - 1)
+        sources.append({"decls": [], "text": main, "files": files})
+    groups = 4 if quick else 12
+    scn = []
+    for g in range(groups):
+        part = sources[g::groups]
+        scn.append({"id": g + 1, "sources": part, "waves": 6 if quick else 40, "widths": [2, 8, 64, 16],
+                    "procs": [1, 2, 4, 16], "seed": ctx.seed * 10 + g})
+    logs = os.path.join(ctx.work, "race")
+    os.makedirs(logs, exist_ok=True)
+    events, stderr = core.vh_sharded(ctx, "conc", scn, timeout=3000, race=True, shards=groups,
+                                     env={"GORACE": "halt_on_error=0 exitcode=0 log_path=%s/race" % logs})
+    races = []
+    for fn in os.listdir(logs):
+        txt = open(os.path.join(logs, fn), errors="replace").read()
+        for m in re.finditer(r"WARNING: DATA RACE.*?(?==================|\Z)", txt, re.S):
+            races.append(m.group(0))
+    prints, nev, _ = core.validate(ctx, "CompileConcTrace", "CompileConcTrace.cfg", events, chunk=60000)
+    by_id = {s["id"]: s for s in scn}
+    for kind, p in prints:
+        if kind == "VERDICT":
+            w = p["what"]
+            sig = "C07/" + w["what"]
+            what = "%s (group %d, source %s, wave %s)" % (w["what"], p["t"], w["input"], w["wave"])
+        elif kind == "REJECT":
+            sig = "C07/Crash:" + str(p["what"])
+            what = "group %d: %s" % (p["t"], [e for e in events if e["t"] == p["t"] and e["e"] == p["what"]][:1])
+        else:
+            continue
+        core.add_violation(ctx, sig, what, {"family": "conc", "scenario": {k: v for k, v in by_id[p["t"]].items() if k != "sources"}})
+    for r_ in races[:3]:
+        frames = re.findall(r"github.com/anz-bank/sysl/[^\s(]+", r_)
+        site = frames[0].replace("github.com/anz-bank/sysl/", "") if frames else "unknown"
+        core.add_violation(ctx, "C07/DataRace/" + site, r_[:1500], {"family": "conc", "race": r_[:3000]})
+    nobs = sum(1 for e in events if e["e"] == "gen")
+    cov = {"evaluations": nobs // 2, "distinct_nontrivial": len(sources),
+           "rule": "one evaluation = one compile (sequential baseline or inside a wave of 2/8/64/16 goroutines under GOMAXPROCS 1/2/4/16); "
+                   "distinct = different source (TLC-generated programs incl. chained mixins, and corpus files without imports); "
+                   "every concurrent result is compared with the first sequential result of the same source; built with -race",
+           "waves": sum(s["waves"] for s in scn), "race_reports": len(races),
+           "quiescence_checks": sum(1 for e in events if e["e"] == "quiescent"),
+           "states": mc.distinct, "transitions": mc.generated, "traces_validated_against_impl": len(scn),
+           "samples": [e for e in events if e["e"] in ("gen", "quiescent")][:3]}
+    return core.finish(ctx, "exploration", cov, [
+        "the schedules of the real goroutines are sampled, not enumerated; the protocol of the global lexer-state map is model-checked separately (CompileConc.tla, 3 parses x 2 addresses)",
+        "data-race freedom is what the Go race detector observes on the executed interleavings",
+        "lexer state at quiescence is read through the verif hook VerifLexerStateCount",
+    ])
